@@ -146,6 +146,8 @@ def inline_call(b, bb, c):
     for k, a in enumerate(t['args']):
         stmts.append({'k': 'assign', 'place': {'local': lm(k + 1), 'proj': []}, 'rv': {'k': 'use', 'op': a}, 'span': span, 'exp': t.get('exp', False)})
     b['blocks'][bb]['term'] = {'k': 'goto', 'target': bm(0), 'span': span, 'exp': t.get('exp', False)}
+    # every `return` of the callee jumps to RET, which hands the result to the call's destination and continues after the call
+    RET = bbase + len(c['blocks'])
     for blk in c['blocks']:
         nb = {'cleanup': blk['cleanup'], 'stmts': [], 'term': None}
         for st in blk['stmts']:
@@ -158,8 +160,7 @@ def inline_call(b, bb, c):
         tt = dict(blk['term'])
         k = tt['k']
         if k == 'return':
-            nb['stmts'].append({'k': 'assign', 'place': dest, 'rv': {'k': 'use', 'op': {'k': 'move', 'place': {'local': lm(0), 'proj': []}}}, 'span': tt['span'], 'exp': tt.get('exp', False)})
-            tt = {'k': 'goto', 'target': cont, 'span': tt['span'], 'exp': tt.get('exp', False)} if cont is not None else {'k': 'unreachable', 'span': tt['span'], 'exp': False}
+            tt = {'k': 'goto', 'target': RET, 'span': tt['span'], 'exp': tt.get('exp', False)}
         else:
             for key in ('target', 'otherwise'):
                 if tt.get(key) is not None and isinstance(tt.get(key), int):
@@ -180,8 +181,39 @@ def inline_call(b, bb, c):
                 tt['succ'] = [bm(x) for x in tt.get('succ', [])]
         nb['term'] = tt
         b['blocks'].append(nb)
+    b['blocks'].append({'cleanup': False, 'stmts': [{'k': 'assign', 'place': dest, 'rv': {'k': 'use', 'op': {'k': 'move', 'place': {'local': lm(0), 'proj': []}}}, 'span': span, 'exp': True}],
+                        'term': ({'k': 'goto', 'target': cont, 'span': span, 'exp': True} if cont is not None else {'k': 'unreachable', 'span': span, 'exp': False})})
+    assert len(b['blocks']) - 1 == RET
     b.setdefault('inlined', []).append(c['path'])
     _resolve_ref_aliases(b, lbase)
+    # a helper returning Result / Option whose result the caller immediately tests (`helper()?`, `match helper() {..}`): returns whose variant
+    # is statically known are routed to the matching arm, so that no infeasible "returned Err but continued as Ok" path exists
+    if cont is not None and not dest['proj']:
+        k = _try_continuation(b, cont, dest['local'])
+        if k is not None:
+            chain, ok_target, err_target = k
+
+            def clone_path(final):
+                first = prev = None
+                for n in [RET] + chain:
+                    nb = copy.deepcopy(b['blocks'][n])
+                    idx = len(b['blocks'])
+                    b['blocks'].append(nb)
+                    if prev is None:
+                        first = idx
+                    else:
+                        b['blocks'][prev]['term']['target'] = idx
+                    prev = idx
+                b['blocks'][prev]['term'] = {'k': 'goto', 'target': final, 'span': span, 'exp': True}
+                return first
+            import copy
+            _thread_known_returns(b, range(bbase, RET), lm(0), RET, clone_path(ok_target), clone_path(err_target))
+            # if every return was routed, the untested hand-over block is dead: it must not contribute definitions any more
+            def targets(t):
+                out = [t.get('target'), t.get('otherwise')] + [x for _, x in t.get('targets', [])] + list(t.get('succ', []))
+                return [x for x in out if isinstance(x, int)]
+            if not any(RET in targets(blk['term']) for i_, blk in enumerate(b['blocks']) if i_ != RET):
+                b['blocks'][RET] = {'cleanup': False, 'stmts': [], 'term': {'k': 'unreachable', 'span': span, 'exp': True}}
     # promoted constants of the callee are referenced by index: append and remap
     if c.get('promoted'):
         off = len(b.get('promoted', []))
@@ -589,6 +621,80 @@ def _substitute_captures(blocks, env_local, caps):
     _map_places(blocks, f)
 
 
+def _try_continuation(b, cont, dest_local):
+    """The code after a call whose result `dest_local` is tested at once: a straight line from `cont` to either `Try::branch(dest)` followed by
+    the switch on Continue/Break, or a switch on the variant of dest itself.  -> (blocks of that line incl. the switch block, target when the
+    value is Ok/Some, target when it is Err/None), or None."""
+    def single_succ(t):
+        if t['k'] in ('goto', 'drop'):
+            return t['target']
+        return None
+
+    def switch_on(blk, local, names_ok, names_err):
+        t = blk['term']
+        if t['k'] != 'switch' or t['discr'].get('k') not in ('move', 'copy') or t['discr']['place']['proj']:
+            return None
+        d = t['discr']['place']['local']
+        for st in blk['stmts']:
+            if st['k'] == 'assign' and st['place']['local'] == d and not st['place']['proj'] and st['rv']['k'] == 'discr' and \
+                    st['rv']['place']['local'] == local and not st['rv']['place']['proj']:
+                vmap = {v: n for v, n in st['rv'].get('variants', [])}
+                tg = {}
+                for v, x in t['targets']:
+                    tg[vmap.get(v)] = x
+                okt = [tg[n] for n in names_ok if n in tg]
+                ert = [tg[n] for n in names_err if n in tg]
+                listed = set(vmap.get(v) for v, _ in t['targets'])
+                # an unlisted variant goes to `otherwise`
+                if not okt and any(n in vmap.values() and n not in listed for n in names_ok):
+                    okt = [t['otherwise']]
+                if not ert and any(n in vmap.values() and n not in listed for n in names_err):
+                    ert = [t['otherwise']]
+                if len(okt) == 1 and len(ert) == 1:
+                    return okt[0], ert[0]
+        return None
+    chain = []
+    n = cont
+    for _ in range(6):
+        if n is None or n >= len(b['blocks']):
+            return None
+        blk = b['blocks'][n]
+        t = blk['term']
+        if any(st['k'] == 'assign' and st['place']['local'] == dest_local and not st['place']['proj'] for st in blk['stmts']):
+            return None
+        sw = switch_on(blk, dest_local, ('Ok', 'Some'), ('Err', 'None'))
+        if sw is not None:
+            return chain + [n], sw[0], sw[1]
+        if t['k'] == 'call' and t['func'].get('name') == 'branch' and t['args'] and t['args'][0].get('k') in ('move', 'copy') and not t['args'][0]['place']['proj'] \
+                and t['target'] is not None and not t['dest']['proj']:
+            a = t['args'][0]['place']['local']
+            direct = a == dest_local or any(st['k'] == 'assign' and st['place']['local'] == a and not st['place']['proj'] and st['rv']['k'] == 'use' and
+                                             st['rv']['op'].get('k') in ('move', 'copy') and st['rv']['op']['place']['local'] == dest_local and not st['rv']['op']['place']['proj']
+                                             for st in blk['stmts'])
+            if not direct:
+                return None
+            r = t['dest']['local']
+            chain.append(n)
+            m = t['target']
+            for _ in range(4):
+                blk2 = b['blocks'][m]
+                sw = switch_on(blk2, r, ('Continue',), ('Break',))
+                if sw is not None:
+                    return chain + [m], sw[0], sw[1]
+                nn = single_succ(blk2['term'])
+                if nn is None:
+                    return None
+                chain.append(m)
+                m = nn
+            return None
+        nn = single_succ(t)
+        if nn is None:
+            return None
+        chain.append(n)
+        n = nn
+    return None
+
+
 def _thread_known_returns(b, grafted, ret_local, RET, H, EARLY):
     """In a grafted closure returning Result<(), E>: where the value returned is statically Ok (`Ok(())` literal) or Err (`?` residual), route that
     return directly to the loop header / the early exit instead of through the Ok/Err test at RET, so that no infeasible path
@@ -612,7 +718,8 @@ def _thread_known_returns(b, grafted, ret_local, RET, H, EARLY):
             for st in blk['stmts']:
                 if st['k'] == 'assign' and st['place']['local'] == ret_local and not st['place']['proj']:
                     rv = st['rv']
-                    kind = rv['agg'].get('variant') if rv['k'] == 'agg' and rv['agg']['k'] == 'adt' and rv['agg'].get('variant') in ('Ok', 'Err') else None
+                    kind = rv['agg'].get('variant') if rv['k'] == 'agg' and rv['agg']['k'] == 'adt' and rv['agg'].get('variant') in ('Ok', 'Err', 'Some', 'None') else None
+                    kind = {'Some': 'Ok', 'None': 'Err'}.get(kind, kind)
             nxt_key = 'target' if single_succ(t) is not None else None
         if kind is None or nxt_key is None or t.get(nxt_key) is None:
             continue
@@ -851,9 +958,33 @@ class Body:
         return 'Body(%s)' % self.qname
 
     # ---- iteration
+    def _reachable_blocks(self):
+        """block indices reachable from the entry over the non-unwind edges (grafting and jump threading leave dead blocks behind)"""
+        if getattr(self, '_reach_blocks', None) is None:
+            seen = set()
+            st = [0]
+            while st:
+                n = st.pop()
+                if n in seen or not isinstance(n, int) or n < 0 or n >= len(self.blocks):
+                    continue
+                seen.add(n)
+                t = self.blocks[n]['term']
+                k = t['k']
+                if k in ('goto', 'drop', 'call', 'assert'):
+                    if t.get('target') is not None:
+                        st.append(t['target'])
+                elif k == 'switch':
+                    st.extend(x for _, x in t['targets'])
+                    st.append(t['otherwise'])
+                elif k == 'other':
+                    st.extend(t.get('succ', []))
+            self._reach_blocks = seen
+        return self._reach_blocks
+
     def live_blocks(self):
+        reach = self._reachable_blocks()
         for i, bl in enumerate(self.blocks):
-            if not bl['cleanup']:
+            if not bl['cleanup'] and i in reach:
                 yield i, bl
 
     def calls(self):
